@@ -112,7 +112,7 @@ def prepare_harness(ctx, h):
     """derive the tree for one harness; returns (root, log)"""
     root = os.path.join(ctx.scratch, "d_" + h["name"])
     log = []
-    vderive.derive(REPO, root, h.get("renames"), log, asm=h.get("asm2c", True))
+    vderive.derive(REPO, root, h.get("renames"), log, asm=h.get("asm2c", True), guards=h.get("guards"))
     # harness sources are copied next to the derived tree so that relative
     # includes of shared harness helpers work
     hdir = os.path.join(VERIF, "harness", h.get("dir", ctx.prop))
